@@ -178,7 +178,9 @@ func c19Shape(zr *zip.Reader, raw []byte) string {
 func c19Setup(c *core.Ctx) { c.Register("c19", c19Eval) }
 
 func c19Run(c *core.Ctx) {
-	markers := []string{"[Content_Types].xml", "word/document.xml", "word/", "xl/workbook.xml", "ppt/presentation.xml", "META-INF/MANIFEST.MF", "AndroidManifest.xml", "classes.dex", "resources.arsc", "res/drawable/x.png"}
+	markers := []string{"[Content_Types].xml", "word/document.xml", "word/", "xl/workbook.xml", "ppt/presentation.xml", "META-INF/MANIFEST.MF", "AndroidManifest.xml", "classes.dex", "resources.arsc", "res/drawable/x.png",
+		// non-ASCII names: the writer sets the UTF-8 flag (bit 11) in their headers
+		"word/\u00fcbersicht.xml", "xl/tabl\u00e9s/t1.xml"}
 	book := []string{"_rels/.rels", "docProps/app.xml", "docProps/core.xml", "customXml/item1.xml", "[trash]/0000.dat"}
 	near := []string{"Word/document.xml", "words/a.xml", "xword/document.xml", "xl", "pptx/p.xml", "META-INF/MANIFEST.MF.bak", "meta-inf/manifest.mf", "mimetypes"}
 	// "PK" alone is not a zip signature: names (and bodies, below) may contain it
@@ -314,7 +316,7 @@ func c19Run(c *core.Ctx) {
 	}
 	_ = rec
 	// (B) lengths 4..7: [Content_Types].xml first, the marker at every position 2..L among fillers
-	fillers := []string{"_rels/.rels", "docProps/app.xml", "customXml/item1.xml", "[trash]/0000.dat", "a.txt", "d/", "media/" + strings.Repeat("n", 300) + ".png", "customXml/PKG-INFO"}
+	fillers := []string{"_rels/.rels", "docProps/app.xml", "customXml/item1.xml", "[trash]/0000.dat", "a.txt", "d/", "media/" + strings.Repeat("n", 300) + ".png", "customXml/PKG-INFO", "docProps/\u00fcber.xml"}
 	for L := 4; L <= 7; L++ {
 		fs := fillers
 		if L >= 6 && !c.Thorough() {
